@@ -105,9 +105,9 @@ static HANGS: std::sync::atomic::AtomicUsize = std::sync::atomic::AtomicUsize::n
 fn watchdog() -> Duration {
     let get = |k: &str, d: u64| std::env::var(k).ok().and_then(|s| s.parse().ok()).unwrap_or(d);
     let ms = if HANGS.load(std::sync::atomic::Ordering::Relaxed) >= 2 {
-        get("RT_WATCHDOG_SHORT_MS", 1_500).min(get("RT_WATCHDOG_MS", 10_000))
+        get("RT_WATCHDOG_SHORT_MS", 800).min(get("RT_WATCHDOG_MS", 6_000))
     } else {
-        get("RT_WATCHDOG_MS", 10_000)
+        get("RT_WATCHDOG_MS", 6_000)
     };
     Duration::from_millis(ms)
 }
